@@ -12,7 +12,9 @@
 //   OP D c <M D*D> <R D*c> DenseMatrixOperation(M)(R) (the product the randomized front-end uses) -> R prod
 //   EIG D <S D*D>          reference eigenvalues of a symmetric matrix, ascending -> R eigvals
 //   EMB pca|kpca|mds dense|randomized N D d <X N*D>
-//                          public API with linear kernel, Euclidean distance and features callbacks on X
+//                          X##Implementation(ImplementationBase(...)).validate(); .embed() -- the body of the
+//                          dispatcher macro of methods.hpp -- with linear kernel, Euclidean distance and
+//                          features callbacks on X
 //                          -> R emb (N x d), R has 0|1, and for a MatrixProjectionImplementation R P, R m
 // Numbers are decimal or hex-float on input, hex-float on output.
 #include "spectral_common.hpp"
@@ -109,14 +111,48 @@ int main()
                 eigen_features_callback fcb(X);
                 eigen_kernel_callback kcb(X);
                 eigen_distance_callback dcb(X);
-                DimensionReductionMethod m = meth == "pca" ? PrincipalComponentAnalysis
-                                             : meth == "kpca" ? KernelPrincipalComponentAnalysis
-                                                              : MultidimensionalScaling;
-                TapkeeOutput out = tapkee::with((method = m, target_dimension = d, eigen_method = solver_of(solver)))
-                                       .withKernel(kcb)
-                                       .withDistance(dcb)
-                                       .withFeatures(fcb)
-                                       .embedUsing(idx);
+                // The three implementation classes are instantiated directly, exactly as the dispatcher
+                // macro tapkee_method_handle(X) of methods.hpp does (ImplementationBase, X##Implementation,
+                // validate(), embed()); going through tapkee::embed would instantiate all twenty methods and
+                // triple the build time of this driver.  The dispatch itself is exercised by harness/c07.cpp.
+                typedef std::vector<IndexType>::iterator It;
+                typedef tapkee_internal::ImplementationBase<It, eigen_kernel_callback, eigen_distance_callback,
+                                                            eigen_features_callback>
+                    Base;
+                stichwort::ParametersSet parameters =
+                    (method = PrincipalComponentAnalysis, target_dimension = d, eigen_method = solver_of(solver));
+                parameters.check();
+                parameters.checkTypes(tapkee_internal::defaults);
+                parameters.merge(tapkee_internal::defaults);
+                tapkee_internal::Context context(nullptr, nullptr);
+                Base base(idx.begin(), idx.end(), kcb, dcb, fcb, parameters, context);
+                TapkeeOutput out;
+                if (meth == "pca")
+                {
+                    tapkee_internal::PrincipalComponentAnalysisImplementation<It, eigen_kernel_callback,
+                                                                              eigen_distance_callback,
+                                                                              eigen_features_callback>
+                        impl(base);
+                    impl.validate();
+                    out = impl.embed();
+                }
+                else if (meth == "kpca")
+                {
+                    tapkee_internal::KernelPrincipalComponentAnalysisImplementation<
+                        It, eigen_kernel_callback, eigen_distance_callback, eigen_features_callback>
+                        impl(base);
+                    impl.validate();
+                    out = impl.embed();
+                }
+                else
+                {
+                    tapkee_internal::MultidimensionalScalingImplementation<It, eigen_kernel_callback,
+                                                                           eigen_distance_callback,
+                                                                           eigen_features_callback>
+                        impl(base);
+                    impl.validate();
+                    out = impl.embed();
+                }
                 print_matrix("emb", out.embedding);
                 bool has = (bool)out.projection.implementation;
                 std::cout << "R has " << (has ? 1 : 0) << std::endl;
